@@ -111,6 +111,7 @@ _TD_PASS_THROUGH = {
     torch.flatten: True,
     torch.full_like: True,
     torch.gather: True,
+    torch.masked_select: True,
     torch.ones_like: True,
     torch.permute: True,
     torch.rand_like: True,
@@ -118,9 +119,11 @@ _TD_PASS_THROUGH = {
     torch.split: True,
     torch.squeeze: True,
     torch.stack: True,
+    torch.transpose: True,
     torch.unbind: True,
     torch.unflatten: True,
     torch.unsqueeze: True,
+    torch.where: True,
     torch.zeros_like: True,
 }
 # Methods to be executed from tensordict, any ref to self means 'tensorclass'
@@ -823,6 +826,12 @@ def _tensorclass(cls: T, *, frozen, shadow: bool) -> T:
             tensorclass_instance = kwargs.get("input", kwargs["tensors"])
         if isinstance(tensorclass_instance, (tuple, list)):
             tensorclass_instance = tensorclass_instance[0]
+        if not _is_tensorclass(type(tensorclass_instance)):
+            # e.g. torch.where(condition, input, other): the first tensorclass among the arguments
+            for arg in (*args, *kwargs.values()):
+                if _is_tensorclass(type(arg)):
+                    tensorclass_instance = arg
+                    break
         args = tuple(_arg_to_tensordict(arg) for arg in args)
         kwargs = {key: _arg_to_tensordict(value) for key, value in kwargs.items()}
 
